@@ -280,6 +280,35 @@ def partial_on_terminate(markdir=None, sec=0.4):
         return SlowBox('partial', sec)
 
 
+def return_and_linger(markdir=None, sec=60, stop_after=None):
+    """Returns at once but leaves a non-daemon thread behind: the result is delivered, the process stays.
+    stop_after: the lingering process SIGSTOPs itself after that many seconds."""
+    mark(markdir, 'entered')
+
+    def stay():
+        if stop_after is not None:
+            time.sleep(stop_after)
+            os.kill(os.getpid(), 19)
+        time.sleep(sec)
+    import multiprocessing
+    if multiprocessing.current_process().name != 'MainProcess':
+        threading.Thread(target=stay).start()
+    return 'done'
+
+
+def nested_workers(x, how='process'):
+    """A target that uses helper processes of its own."""
+    if how == 'process':
+        from pyworkers.process import ProcessWorker
+        ws = [ProcessWorker(ret_value, args=[x + i]) for i in range(2)]
+        for w in ws:
+            w.wait()
+        return sum(w.result for w in ws)
+    import multiprocessing
+    with multiprocessing.get_context('spawn').Pool(2) as pool:
+        return sum(pool.map(abs, [x, -x, 1]))
+
+
 def sleep_c(sec=30):
     time.sleep(sec)
 
@@ -321,6 +350,9 @@ def restart_target(uid, d2='X', *, dk=0, kind='ok'):
         time.sleep(0.4)
     if kind == 'slowbox':
         return [uid, d2, dk, SlowBox(uid, 0.7)]
+    if kind == 'block':
+        # one blocking call: a termination request is only noticed when it returns
+        time.sleep(0.6)
     if kind == 'swallow1':
         # ignores the first termination request only
         n = 0
